@@ -135,7 +135,8 @@ def run_case(case: Dict[str, Any]) -> CaseResult:
                 res.viol("id-missing", f"site {s['site']}: {e}" + ctag)
                 continue
             prefix = ".".join(path) + "." if path else ""
-            if not nid.startswith(prefix + s["fn"]) or (not path and "." in nid):
+            qual = _p["fns"][s["fn"]].get("qual", s["fn"])
+            if not nid.startswith(prefix + qual) or (not path and "." in nid.replace(qual, "")):
                 res.viol("id-prefix", f"site {s['site']} (function {s['fn']}, nesting {path}) has id {nid!r}" + ctag)
         ids = list(b.dag.exec_nodes)
         if len(ids) != len(set(ids)):
